@@ -177,6 +177,11 @@ func isZeroValue(rv reflect.Value) (bool, error) {
 		}
 
 		for _, f := range sD.fields {
+			if f.tag == ANY_TAG || f.skip {
+				// field is never encoded
+				continue
+			}
+
 			isZero, err := isZeroValue(rv.FieldByIndex(f.idx))
 			if err != nil {
 				return false, err
